@@ -640,7 +640,11 @@ fn main() {
                 for prefix in FS_PREFIXES {
                     for trailing in [false, true] {
                         let Some(input) = fs_input(prefix, comps, trailing) else { continue };
-                        if comps.len() >= 2 && needs_normalisation(&input) {
+                        if comps.len() >= 3
+                            && comps[0] != comps[1]
+                            && comps.iter().any(|&i| FS_COMPONENTS[i] == b"..")
+                            && (input.len() + comps[0]) % 7 == 3
+                        {
                             samples.offer(|| json!({"fs_input": lossy(&input), "cwds": CWDS, "bases": BASES}));
                         }
                         run_fs_input(&input, t, |(sig, msg), case| ctx.violation(&sig, msg, case));
@@ -699,7 +703,8 @@ fn main() {
         ("to_fs_accepted", t.to_fs_accepted),
         ("internal_rejected", t.internal_rejected),
     ] {
-        if n == 0 {
+        // (a violation can legitimately starve a counter, e.g. nothing is rejected any more)
+        if n == 0 && ctx.violation_count() == 0 {
             vcommon::machinery_failure(&format!("vacuous: counter {name} is 0"));
         }
     }
